@@ -66,6 +66,10 @@ func (sm *pipelineStateMachine) GetStats() []*models.StageStats {
 
 // executeStage tracks stage start execution state.
 func (sm *pipelineStateMachine) executeStage(parentStageID, stageID string, stage stagepkg.Stage) {
+	// NOTE: must describe the stage before it is tracked as pending, if the stage panics here the caller cannot
+	// complete it(recover of pipeline.executeStage is installed after tracking), then the pipeline never completes.
+	identifier := stage.Identifier()
+
 	sm.mutex.Lock()
 	defer sm.mutex.Unlock()
 
@@ -80,7 +84,7 @@ func (sm *pipelineStateMachine) executeStage(parentStageID, stageID string, stag
 	ts.startTime = time.Now()
 	ts.stats = &models.StageStats{
 		Start:      ts.startTime.UnixNano(),
-		Identifier: stage.Identifier(),
+		Identifier: identifier,
 		State:      ts.state.String(),
 	}
 	if parentStageID == "" {
